@@ -24,6 +24,10 @@ LEVEL_TEXT = (
     "Rust and Julia source by the real generators; the code is executed (CPython, node, rustc; Julia through a subset "
     "evaluator) at 4 states x 2 times and compared with Model.get_right_hand_side. Untranslatable functions must make "
     "generation raise."
+    " Added: numeric coefficients that are not short decimals (0.4321, 0.0004, 1/3, 0, computed zero), "
+    "many-digit / tiny / huge parameter values, a parameter named like a generated derivative (dx1dt), "
+    "functions at the edge of the subset (refuse or compute the function's value), helpers imported inside the "
+    "function, roots of squares, generate - rebind helper - generate histories. "
 )
 LEVEL_NOTE = "trusted: node, rustc, CPython; the Julia-subset evaluator of mc/runners.py stands in for Julia (not installed); TypeScript annotations are stripped, not type-checked; the model's own RHS is the oracle (C01 checks it)"
 RULE = (
@@ -37,7 +41,7 @@ LANGS = ["py", "ts", "rs", "jl"]
 SLOTS_THOROUGH = {
     "nvars": [1, 2, 3],
     "untouched": ["no", "first", "last"],
-    "coef": ["one", "two", "half", "pname", "pcomp", "neg", "irr", "tiny", "third", "zero", "czero"],
+    "coef": ["one", "two", "half", "pname", "pcomp", "neg", "irr", "tiny", "third", "zero", "czero", "pname-dxdt"],
     "derived": ["none", "one", "chain", "chain-ooo", "ratedep"],
     "ptype": ["float", "int"],
     "ia": [0, 1],
@@ -85,8 +89,13 @@ def build_model(c):
         "one": 1, "two": 2, "half": 0.5, "neg": -3, "pname": "kc",
         # measured coefficients: not a ratio of small integers, very small, a non-terminating binary fraction
         "irr": 0.4321, "tiny": 0.0004, "third": 1 / 3, "zero": 0.0, "czero": Derived(fn=F.minus_self, args=["kc"]),
+        "pname-dxdt": None,
         "pcomp": Derived(fn=F.half_plus, args=["kc"]),
     }[c["coef"]]
+    if c["coef"] == "pname-dxdt":
+        # a parameter called like the name a generator gives to a derivative (d<variable>dt), used as a coefficient
+        m.add_parameter("dx1dt", 1.5)
+        coef = "dx1dt"
     m.add_reaction("r_in", F.const_in, args=["kin"], stoichiometry={xs[0]: coef})
     for i in range(n - 1):
         m.add_reaction(f"r{i + 1}", F.ma1, args=[xs[i], "k1"], stoichiometry={xs[i]: -1, xs[i + 1]: 1})
@@ -120,6 +129,8 @@ def build_model(c):
         m.add_reaction("rc", F.rootsq, args=["x1", "k2"], stoichiometry={"x1": -1})
     elif c["ct"] == "time":
         m.add_reaction("rt", F.ma1_t, args=["x1", "k1", "time"], stoichiometry={"x1": -1, xs[-1]: 1} if n > 1 else {"x1": -1})
+    if c["coef"] == "pname-dxdt":  # declared last: the derivative of x1 is assigned before this coefficient is read
+        m.add_reaction("rz", F.ma1, args=["x1", "dx1dt"], stoichiometry={xs[-1]: "dx1dt"})
     if c["untr"] == 1:
         m.add_reaction("ru", F.loop_fn, args=["x1", "k1"], stoichiometry={"x1": -1})
     elif c["untr"]:
@@ -140,7 +151,7 @@ def generate(tier):
     for untr, nvars, free in it.product(range(2, 2 + len(F.EDGE_FNS)), slots["nvars"], slots["free"]):
         shapes.append({**base, "untr": untr, "nvars": nvars, "derived": "none", "free": free})
     # numeric coefficients of every kind (the quick product above carries only 1, 2 and 0.5)
-    for coef, nvars, untouched, derived, free in it.product(("neg", "irr", "tiny", "third", "zero", "czero"), (1, 2), ("no", "first"), ("none", "chain"), slots["free"]):
+    for coef, nvars, untouched, derived, free in it.product(("neg", "irr", "tiny", "third", "zero", "czero", "pname-dxdt"), (1, 2), ("no", "first"), ("none", "chain"), slots["free"]):
         sh = {**base, "untr": 0, "coef": coef, "nvars": nvars, "untouched": untouched, "derived": derived, "free": free}
         if sh not in shapes:
             shapes.append(sh)
